@@ -47,12 +47,13 @@ where
     }
 }
 
-/// The undefined label that comes first in the source. The set has no order of
-/// its own, and the reported position must not depend on how it happens to hash.
+/// The undefined label that comes first in its file (files are told apart by
+/// random ids, which therefore only break ties). The set has no order of its
+/// own, and the reported position must not depend on how it happens to hash.
 fn first_label(labels: &HashSet<LabelStringToken>) -> &LabelStringToken {
     labels
         .iter()
-        .min_by_key(|label| (label.file(), label.range()))
+        .min_by_key(|label| (label.range(), label.file()))
         .unwrap()
 }
 
